@@ -158,6 +158,8 @@ def _data_columns_as_dict(data, columns = None):
                 return dict(dictable.read_excel(data, columns))
             else:
                 return {columns : data}
+        elif isinstance(data, list) and len(data) and is_dicts(data):
+            return dict_concat(data) ## records: __init__ keeps the columns asked for. Read as rows, the records would contribute their keys as cells
         else:
             return dict(zipper(columns, zipper(*data)))
     else:
